@@ -520,6 +520,8 @@ func (e *EtcdOp) getCollectionNameByID(ctx context.Context, collectionID int64) 
 		if len(resp.Kvs) == 0 {
 			continue
 		}
+		// found the collection in this database
+		break
 	}
 	if resp == nil {
 		log.Warn("there is no database")
